@@ -51,3 +51,142 @@ Definition sample_sort (s : sample) : sample :=
        | Some ws => let ps := psort (combine (s_xs s) ws) in mkSample (map fst ps) (Some (map snd ps)) true
        end.
 Definition sample_copy (s : sample) : sample := s.
+
+(* ====================================================================== *)
+(* descriptive statistics (C09)                                             *)
+(* ====================================================================== *)
+Inductive fres := FNaN | FVal (v : Q) | FPanic.
+
+(* vec.Sum (vec.go:55-61): sum += x  (kept reduced) *)
+Definition vsum (xs : list Q) : Q := fold_left (fun a x => Qred (a + x)) xs 0.
+
+(* Sample.Sum (sample.go:95-104) *)
+Definition sample_sum (s : sample) : Q :=
+  match s_ws s with
+  | None => vsum (s_xs s)
+  | Some ws => fold_left (fun a p => Qred (a + fst p * snd p)) (combine (s_xs s) ws) 0
+  end.
+(* Sample.Weight (sample.go:107-112) *)
+Definition sample_weight (s : sample) : Q :=
+  match s_ws s with None => Qofnat (length (s_xs s)) | Some ws => vsum ws end.
+
+(* Mean (sample.go:115-124): m += (x - m) / (i+1) *)
+Fixpoint mean_loop (xs : list Q) (i : nat) (m : Q) : Q :=
+  match xs with
+  | [] => m
+  | x :: t => mean_loop t (S i) (Qred (m + (x - m) / Qofnat (S i)))
+  end.
+Definition mean (xs : list Q) : fres := match xs with [] => FNaN | _ => FVal (mean_loop xs 0 0) end.
+
+(* Sample.Mean, weighted (sample.go:127-145, repaired: zero weights are skipped):
+   wsum += w ; m += (x - m) * w / wsum *)
+Fixpoint wmean_loop (ps : list (Q * Q)) (m wsum : Q) : Q :=
+  match ps with
+  | [] => m
+  | (x, w) :: t =>
+      if Qeq_bool w 0 then wmean_loop t m wsum
+      else let wsum' := Qred (wsum + w) in wmean_loop t (Qred (m + (x - m) * w / wsum')) wsum'
+  end.
+Definition sample_mean (s : sample) : fres :=
+  match s_xs s, s_ws s with
+  | [], _ => FNaN
+  | xs, None => mean xs
+  | xs, Some ws => FVal (wmean_loop (combine xs ws) 0 0)
+  end.
+
+(* Variance (sample.go:219-237), Welford: delta := x - mean; mean += delta/(n+1);
+   M2 += delta*(x - mean); result M2/(len-1) *)
+Fixpoint var_loop (xs : list Q) (n : nat) (mean m2 : Q) : Q * Q :=
+  match xs with
+  | [] => (mean, m2)
+  | x :: t => let delta := x - mean in
+              let mean' := Qred (mean + delta / Qofnat (S n)) in
+              var_loop t (S n) mean' (Qred (m2 + delta * (x - mean')))
+  end.
+Definition variance (xs : list Q) : fres :=
+  match xs with
+  | [] => FNaN
+  | [_] => FVal 0
+  | _ => FVal (snd (var_loop xs 0 0 0) / Qofnat (length xs - 1))
+  end.
+(* Sample.Variance / StdDev (sample.go:239-259): weighted is panic("not implemented").
+   StdDev is sqrt(Variance): the model returns the radicand. *)
+Definition sample_variance (s : sample) : fres :=
+  match s_xs s, s_ws s with
+  | [], _ => FNaN
+  | xs, None => variance xs
+  | _, Some _ => FPanic
+  end.
+
+(* GeoMean (sample.go:183-216) = exp(incremental mean of ln x).  exp and ln are not computable
+   in Q; the model tracks the value of m as a FORMAL linear combination sum_i c_i * ln(x_i) and
+   returns the coefficients c_i (one per value, in order): the result is exp(sum c_i ln x_i).
+   NaN for an empty sample and, unweighted, as soon as a value is <= 0. *)
+Inductive gres := GNaN | GExp (cs : list Q).
+Fixpoint geo_loop (xs : list Q) (i : nat) (cs : list Q) : option (list Q) :=
+  match xs with
+  | [] => Some cs
+  | x :: t => if Qle_bool x 0 then None
+              else let d := Qofnat (S i) in                       (* m += (lx - m) / (i+1) *)
+                   geo_loop t (S i) (map (fun c => Qred (c - c / d)) cs ++ [Qred (1 / d)])
+  end.
+Definition geomean (xs : list Q) : gres :=
+  match xs with [] => GNaN | _ => match geo_loop xs 0 [] with None => GNaN | Some cs => GExp cs end end.
+(* weighted (repaired: zero weights skipped): wsum += w ; m += (lx - m) * w / wsum *)
+Fixpoint wgeo_loop (ps : list (Q * Q)) (cs : list Q) (wsum : Q) : list Q :=
+  match ps with
+  | [] => cs
+  | (x, w) :: t =>
+      if Qeq_bool w 0 then wgeo_loop t (cs ++ [0]) wsum
+      else let wsum' := Qred (wsum + w) in
+           wgeo_loop t (map (fun c => Qred (c - c * w / wsum')) cs ++ [Qred (w / wsum')]) wsum'
+  end.
+Definition sample_geomean (s : sample) : gres :=
+  match s_xs s, s_ws s with
+  | [], _ => GNaN
+  | xs, None => geomean xs
+  | xs, Some ws => GExp (wgeo_loop (combine xs ws) [] 0)
+  end.
+
+(* ====================================================================== *)
+(* vec/vec.go                                                               *)
+(* ====================================================================== *)
+(* Linspace (vec.go:32-42): num = 1 -> [lo]; else lo + i*(hi-lo)/(num-1), i = 0..num-1 *)
+Definition linspace (lo hi : Q) (num : nat) : list Q :=
+  match num with
+  | 1%nat => [lo]
+  | _ => map (fun i => Qred (lo + Qofnat i * (hi - lo) / Qofnat (num - 1))) (seq 0 num)
+  end.
+(* Logspace (vec.go:46-52) = base ** Linspace(lo, hi, num): the model returns the exponents *)
+Definition logspace_exponents (lo hi : Q) (num : nat) : list Q := linspace lo hi num.
+(* Map / Vectorize (vec.go:12-28), Concat (vec.go:65-76) *)
+Definition vmap (f : Q -> Q) (xs : list Q) : list Q := map f xs.
+Definition vectorize (f : Q -> Q) : list Q -> list Q := fun xs => vmap f xs.
+Definition vconcat (xss : list (list Q)) : list Q := concat xss.
+
+(* ====================================================================== *)
+(* histories of Sort / Copy / direct writes / queries over a store of samples *)
+(* ====================================================================== *)
+Inductive hop :=
+| HSort (i : nat)                 (* samples[i].Sort()   (in place) *)
+| HCopy (i : nat)                 (* samples = append(samples, samples[i].Copy()) *)
+| HPoke (i j : nat) (v : Q)       (* samples[i].Xs[j] = v ; samples[i].Sorted = false  (done by the caller) *)
+| HQuery (i : nat).               (* observe samples[i] *)
+
+Fixpoint set_nth {A} (l : list A) (i : nat) (a : A) : list A :=
+  match l, i with
+  | [], _ => []
+  | _ :: t, O => a :: t
+  | x :: t, S j => x :: set_nth t j a
+  end.
+
+Definition h_step (st : list sample) (o : hop) : list sample :=
+  match o with
+  | HSort i => match nth_error st i with Some s => set_nth st i (sample_sort s) | None => st end
+  | HCopy i => match nth_error st i with Some s => st ++ [sample_copy s] | None => st end
+  | HPoke i j v => match nth_error st i with
+                   | Some s => set_nth st i (mkSample (set_nth (s_xs s) j v) (s_ws s) false)
+                   | None => st end
+  | HQuery _ => st
+  end.
+Definition h_run (s0 : sample) (ops : list hop) : list sample := fold_left h_step ops [s0].
